@@ -225,6 +225,17 @@ func gen(g *core.G) {
 		}
 	}
 
+	// the Runtime types (no value of the value language is an instance of one): acceptance of every pair, and soundness against a few
+	// values that are instances of neither
+	for _, a := range lat.RuntimeUniverse() {
+		for _, b := range lat.RuntimeUniverse() {
+			g.Emit("asg " + a.String() + " " + b.String())
+			if g.Rng.Intn(6) == 0 {
+				g.Emit("sound " + a.String() + " " + b.String() + " " + vals[g.Rng.Intn(len(vals))].String())
+			}
+		}
+	}
+
 	// ---- (2) structured random cases: B related to A, V generated from B --------------------------------------
 	for i := 0; i < 9000*g.Scale; i++ {
 		lg.Alias = i%5 == 0
